@@ -327,9 +327,16 @@ fn run_linker_shape(shape: usize) -> Res {
     let (img, what) = linker_shape_image(&h, shape);
     h.b.p.write(h.win.base, &img);
     h.b.p.quiesce();
-    let result = dump_mem(h.b.p.pid, &o);
+    let (result, rec) = crate::dump::dump_recorded(h.b.p.pid, &o, 0, Vec::new(), crate::dest::Fault::None);
     let inj = Inj { name: format!("linker data: {what}"), opt: 9, allowed: vec!["dso".into(), "raw.LinuxDsoDebug".into(), "streams".into()], ..Default::default() };
     fails.extend(judge(&inj, &result, &baseline, true));
+    if let DumpResult::Ok(img) = &result {
+        if rec.data != *img {
+            for (k, m) in judge(&inj, &DumpResult::Ok(rec.data.clone()), &baseline, true) {
+                fails.push((format!("destination/{k}"), format!("(judging the bytes that reached the destination, which differ from the returned image) {m}")));
+            }
+        }
+    }
     let soft_len = match &result {
         DumpResult::Ok(bytes) => Dump::parse(bytes).raw_bytes(bytes, ST_MOZ_SOFT_ERRORS).map(|s| s.len()).unwrap_or(0),
         _ => 0,
@@ -511,6 +518,15 @@ fn run_inj(inj: &Inj, n: usize, ctx_on: bool) -> Res {
     // were all planned keys actually reached? (otherwise the injection did not happen: machinery)
     let hit = inj.plan.iter().filter(|(k, _)| !k.starts_with("open:/proc/P/stat#")).all(|(k, _)| out.trace.iter().any(|c| &c.key == k && c.deviated));
     let mut fails = judge(inj, &out.result, &baseline, hit);
+    // what the caller finds at the destination must tell the same story as the returned image
+    if let DumpResult::Ok(img) = &out.result {
+        if out.dest.data != *img {
+            let on_disk = DumpResult::Ok(out.dest.data.clone());
+            for (k, m) in judge(inj, &on_disk, &baseline, hit) {
+                fails.push((format!("destination/{k}"), format!("(judging the bytes that reached the destination, which differ from the returned image) {m}")));
+            }
+        }
+    }
     if !hit {
         fails.push(("MACHINERY".into(), format!("[{}] a planned key was never reached", inj.name)));
     }
